@@ -3,24 +3,24 @@
 import json, subprocess
 
 SIM = {
- "C01": ("exploration", "seeded schedule search (random walk / PCT / site-biased / round-robin, stall faults) over small concurrent programs on the real code; per-key Wing-Gong linearizability check of the recorded invoke/return history against Option<value>, incl. the quiescent state", "5/C01"),
+ "C01": ("exploration", "seeded schedule search (random walk / PCT / site-biased / round-robin / scripted segments, stall faults) over small concurrent programs on the real code, plus crowd scenarios (up to 38 simultaneous readers of one tree bin); per-key Wing-Gong linearizability check of the recorded invoke/return history against Option<value>, incl. the quiescent state", "5/C01"),
  "C03": ("exploration", "seeded schedule search with reclamation pressure (collector batch 1-4, flush/refresh, long-lived guards); canary re-read of every handed-out reference under its still-live guard, poisoning quarantine allocator (double free, write-after-free), crash capture", "5/C03"),
  "C04": ("exploration", "seeded schedule search with reclamation pressure; instance ledger: every key/value instance (incl. clones made by the map) dropped exactly once after teardown, none dropped while a guard older than the displacing call is live, refused values returned intact", "5/C04"),
  "C05": ("exploration", "structure inspector + API agreement evaluated at the quiescent end of every simulated run (iter = lookups = len, placement, no duplicates, no forwarding marker / half-finished resize, locks free)", "5/C05"),
  "C06": ("exploration", "seeded schedule search on tree-bin shapes; full red-black + list/tree agreement validation through the inspector at quiescence, comparison counting of lookups against 4*log2(n+1)+2", "5/C06"),
- "C07": ("exploration", "seeded schedule search with step-wise iterators interleaved with resizes/updates; weak-consistency oracle over the stamped history (safety via iterator-view linearizability, completeness for untouched keys)", "5/C07"),
+ "C07": ("exploration", "seeded schedule search with step-wise iterators, whole iterations and clone() of the shared collection interleaved with resizes/updates; weak-consistency oracle over the stamped history (safety via iterator-view linearizability, completeness for untouched keys)", "5/C07"),
  "C08": ("exploration", "seeded schedule search on compute-heavy programs; compute_if_present as an atomic read-modify-write in the linearizability checker (saw/out), closure-call count, closed-form counter check", "5/C08"),
- "C10": ("exploration", "seeded schedule search with stride/ncpu knobs forcing several helpers; resize ledger from site events (each old bin migrated once, one publication per generation, generations disjoint and doubling) + no leftover resize state + teardown", "5/C10"),
+ "C10": ("exploration", "seeded schedule search with stride/ncpu knobs forcing several helpers, plus helper crowds (9-38 threads meeting one resize); resize ledger from site events (each old bin migrated once, one publication per generation, generations disjoint and doubling) + no leftover resize state + teardown", "5/C10"),
  "C11": ("exploration", "scheduler-level blocking model: deadlock = no runnable thread; livelock = operations unfinished after the fair round-robin tail that follows the adversarial phase; spurious unparks and stalls injected", "5/C11"),
  "C12": ("fault_enumeration", "writer stalled at every one of its decision points in turn (enumerated after a dry run), reader run alone: must finish within a per-operation step bound without reaching a lock/park/spin seam, result admissible", "5/C12"),
  "C13": ("exploration", "seeded schedule search of retain/retain_force raced with replacements; predicate log turned into CondRemove(v)/ForceRemove operations of the linearizability checker", "5/C13"),
- "C14": ("exploration", "seeded schedule search of removal-only programs: no resize event and unchanged table length under any schedule (concurrent half of the capacity contract)", "5/C14"),
+ "C14": ("exploration", "seeded schedule search of two program families: removal-only programs (no resize event, unchanged table length under any schedule) and inserting programs over a bounded key universe (table never larger than distinct keys + removals in flight justify; entry counter = entries at quiescence); single-client half: capacities, reservations, operation sequences and the overfull-bin rule against a capacity reference model", "5/C14"),
  "C18": ("fault_enumeration", "panic injected at the i-th callback invocation for every i (enumerated after a dry run): panic reaches exactly one caller, entry unchanged (linearizability with the panicked call as a no-op), locks free and structure well formed at quiescence", "5/C18"),
 }
 
 SIM.update({
  "C02": ("exploration", "single-client runs of the simulator (no schedule in this property): generated operation sequences over the whole public surface executed step by step against BTreeMap/BTreeSet, all hashers, capacities, both facades, collector batch sizes; full-content comparison after every step", "5/C02"),
- "C09": ("fault_enumeration", "complete enumeration of every public guard-taking method x structural state (incl. mid-resize left by a stalled helper) x foreign-argument position, run as simulated threads with the pointer seam witnessing which collector's guard protected each load/retire; method table cross-checked against the sources", "5/C09"),
+ "C09": ("fault_enumeration", "complete enumeration of every public guard-taking method x structural state (incl. mid-resize left by a stalled helper) x foreign-argument position, in two builds of flurry (with and without its debug assertions), run as simulated threads with the pointer seam witnessing which collector's guard protected each load/retire; method table cross-checked against the sources", "5/C09"),
  "C15": ("exploration", "vector-clock happens-before monitor fed by the orderings flurry passes at its seams during seeded simulated runs (every cross-thread payload read must be ordered after the payload's initialisation); plus Miri many-seeds (weak-memory emulation, data-race detector) on the unhooked crate", "5/C15"),
 })
 
